@@ -328,7 +328,7 @@ pub fn property() -> Property {
             "streams",
             "generated streams x enumerated and random partitions",
             case_strategy,
-            |t| t.pick(160, 6_000),
+            |t| t.pick(400, 6_000),
             check,
         ), crate::fuzz::replay_stream(),
         ],
